@@ -30,8 +30,13 @@ Oracles (only what the statement says)
   * every call returns within a step budget (visit calls) and a CPU budget (ITIMER_VIRTUAL) - a hang is a violation.
   * every (path, value) of research(root) except the root's own entry ((None,), root) satisfies
     get_path(root, path) is value.
-  * a cycle through a tuple (a ref to an enclosing tuple): only termination and input immutability (DESIGN 5.1) -
-    no finite bottom-up rebuild of such a structure exists.
+  * a cycle through a tuple (a ref to an enclosing tuple): only termination, input immutability (DESIGN 5.1) and - with
+    the default callbacks - no list/dict/set shared between result and input; no finite bottom-up rebuild of such a
+    structure exists, so nothing is demanded of the result's shape.
+
+Two-entry dicts also take "look-alike" key pairs (0 and '0', -1 and '-1', 'a' and b'a', a tuple key next to its member ...)
+that a path lookup must keep apart.  A directed part (not an exhaustive space) runs the default callbacks, research+get_path
+and two keep-everything tables on chains nested deeper than the recursion limit and on containers of 2**k +- 1 items.
 """
 import ast
 import contextlib
@@ -65,6 +70,15 @@ LEAVES1 = (None, False, True, 2.5, '', 'ab', PY(b'\x00a'), PY(2j))
 # object / int, a digit string (looks like a list index), a dotted string (get_path splits *string* paths at dots),
 # a negative int and a float.
 KEYS1 = ('items', 'index', '__class__', 'real', '0', 'a.b', -1, 2.5)
+# Key kinds of their own, each alone in a one-entry dict: a bool (indexes a list like 1 / 0 would), a tuple (a path is a
+# tuple of keys: a key that is itself a tuple must stay one segment), the empty tuple, bytes and an int beyond 64 bits.
+KEYS1_ALONE = (True, False, PY((0,)), PY(()), PY(b'a'), 2 ** 70)
+# "Look-alike" key pairs: two *distinct* keys of one dict that turn into each other under a conversion a path lookup
+# might apply (int() / float() / str() of a segment, splitting at dots, bytes <-> str): both entries must stay separately
+# addressable.  Every pair is offered in both orders.
+LOOKALIKE0 = ((0, '0'),)                                       # vocabulary 0 (structures of <= rich_keys_upto nodes)
+LOOKALIKE1 = ((-1, '-1'), (2.5, '2.5'), (1, '1'), (1, '01'), (0, '-0'), (0, ''), (None, 'None'), (True, 'True'),
+              ('a', PY(b'a')), ('a.b', 'a'), ('a', 'A'), (PY((0,)), 0), (PY((0,)), '(0,)'), (2 ** 70, str(2 ** 70)))
 _VOC = [LEAVES, None]          # the vocabulary the generators below draw from: [leaves, key menu function or None]
 CONTAINERS = (list, tuple, dict, set, frozenset)
 MUTABLE = (list, dict, set)
@@ -93,13 +107,17 @@ def iu():
 # terms: enumeration
 
 def key_menus1(k, rich):
-    """Vocabulary 1: every key alone; every key followed by its successor (cyclically) for two entries; rotations."""
+    """Vocabulary 1: every key alone; every key followed by its successor (cyclically) for two entries, and the
+    look-alike pairs in both orders; rotations."""
     if k == 0:
         return [()]
     m = len(KEYS1)
     if k == 1:
-        return [(key,) for key in KEYS1]
-    return [tuple(KEYS1[(i + j) % m] for j in range(k)) for i in range(m)]
+        return [(key,) for key in KEYS1 + KEYS1_ALONE]
+    out = [tuple(KEYS1[(i + j) % m] for j in range(k)) for i in range(m)]
+    if k == 2:
+        out += [pair[::d] for pair in LOOKALIKE1 for d in (1, -1)]
+    return out
 
 
 def key_menus(k, rich):
@@ -111,6 +129,8 @@ def key_menus(k, rich):
     if rich and k <= 2:
         # None as a key must not be taken for "no key": alone, and before/after a string key
         extra = [(None,), ('',)] if k == 1 else [(None, 'a'), ('a', None), ('', 'a')]     # '' : an empty path segment
+        if k == 2:
+            extra += [pair[::d] for pair in LOOKALIKE0 for d in (1, -1)]
         return list(itertools.permutations(('a', 0, 'K'), k)) + extra
     base = ('a', 0, 'K', 'b', 'c', 'd')
     if rich:
@@ -241,8 +261,10 @@ def _parse(spec, nodes, anc, flags):
         flags['nested'] = True
     anc = anc | {idx}
     if nd.tag == 'D':
-        nd.keys = [kv[0] for kv in spec[1:]]
+        nd.keys = [ast.literal_eval(kv[0]['py']) if isinstance(kv[0], dict) else kv[0] for kv in spec[1:]]
         nd.kids = [_parse(kv[1], nodes, anc, flags) for kv in spec[1:]]
+        if len(nd.keys) == 2 and _is_lookalike(nd.keys):
+            flags['lookalike'] = True
     else:
         nd.keys = None
         nd.kids = [_parse(s, nodes, anc, flags) for s in spec[1:]]
@@ -251,9 +273,23 @@ def _parse(spec, nodes, anc, flags):
     return nd
 
 
+def _unpy(k):
+    return ast.literal_eval(k['py']) if isinstance(k, dict) else k
+
+
+def _is_lookalike(keys):
+    for pair in LOOKALIKE0 + LOOKALIKE1:
+        a, b = _unpy(pair[0]), _unpy(pair[1])
+        for x, y in ((a, b), (b, a)):
+            if type(keys[0]) is type(x) and keys[0] == x and type(keys[1]) is type(y) and keys[1] == y:
+                return True
+    return False
+
+
 def build(spec):
     """-> (root object, flags).  Raises Impossible when no such Python object graph exists."""
-    nodes, flags = [], {'refs': 0, 'cycle': False, 'tuple_cycle': False, 'nested': False, 'set_members': False}
+    nodes, flags = [], {'refs': 0, 'cycle': False, 'tuple_cycle': False, 'nested': False, 'set_members': False,
+                        'lookalike': False}
     top = _parse(spec, nodes, frozenset(), flags)
     queue = []
 
@@ -352,6 +388,7 @@ def make_visit(prog):
     """-> visit(path, key, value) implementing the program, with a step budget."""
     kind = prog['kind']
     count = [0]
+    limit = prog.get('steps', STEP_LIMIT)
 
     def act(a, key, value):
         if a == 'T':
@@ -366,7 +403,7 @@ def make_visit(prog):
 
     def tick():
         count[0] += 1
-        if count[0] > STEP_LIMIT:
+        if count[0] > limit:
             raise Budget('steps')
 
     acts = prog.get('acts')
@@ -471,6 +508,9 @@ def programs(tier, n, flags, root=None):
         traced = []
     if n >= DEFAULT_ONLY_FROM:
         return out + traced
+    if flags['lookalike']:
+        # a dict with a look-alike key pair: the programs whose outcome can depend on which key is which
+        return out + UNIFORM_TABLES + traced
     if tier == 'quick' or n <= FULL_UPTO:
         out += BASIC_TABLES
         if tier == 'quick':
@@ -498,7 +538,10 @@ def render(obj):
                     return
             for v in (x.values() if isinstance(x, dict) else x):
                 scan(v)
-    scan(obj)
+    try:
+        scan(obj)
+    except Exception as e:      # noqa - e.g. RecursionError on a structure nested deeper than the recursion limit
+        return '<unrenderable %s: %s>' % (type(obj).__name__, type(e).__name__)
     label = {}
 
     def txt(x):
@@ -566,53 +609,53 @@ def iso(a, b):
     Same types, keys, order, scalars; an object shared in `a` is shared in `b`; two distinct mutable containers of
     `a` are distinct in `b`; members of sets are matched by equality (unordered)."""
     fwd, bwd = {}, {}
-
-    def go(x, y):
-        if type(x) is not type(y):
-            return 'container-type' if isinstance(x, CONTAINERS) and isinstance(y, CONTAINERS) else 'content'
-        if not isinstance(x, CONTAINERS):
-            return None if x == y else 'content'
-        if len(x) != len(y):
-            return 'content'
-        t = type(x)
-        if not (t in (tuple, frozenset) and not x):      # the empty tuple / frozenset are interpreter singletons
-            if id(x) in fwd:
-                return None if fwd[id(x)] is y else 'sharing'
-            if t in MUTABLE:
-                if id(y) in bwd:
+    todo = [(a, b)]                 # explicit stack, children pushed in reverse: the order of a recursive descent,
+    try:                            # without its depth limit (structures nested deeper than the recursion limit)
+        while todo:
+            x, y = todo.pop()
+            if type(x) is not type(y):
+                return 'container-type' if isinstance(x, CONTAINERS) and isinstance(y, CONTAINERS) else 'content'
+            if not isinstance(x, CONTAINERS):
+                if x == y:
+                    continue
+                return 'content'
+            if len(x) != len(y):
+                return 'content'
+            t = type(x)
+            if not (t in (tuple, frozenset) and not x):      # the empty tuple / frozenset are interpreter singletons
+                if id(x) in fwd:
+                    if fwd[id(x)] is y:
+                        continue
                     return 'sharing'
-                bwd[id(y)] = x
-            fwd[id(x)] = y
-        if t is dict:
-            for (kx, vx), (ky, vy) in zip(x.items(), y.items()):
-                if type(kx) is not type(ky) or kx != ky:
-                    return 'content'
-                r = go(vx, vy)
-                if r:
-                    return r
-        elif t in (list, tuple):
-            for vx, vy in zip(x, y):
-                r = go(vx, vy)
-                if r:
-                    return r
-        else:
-            table = {m: m for m in y}
-            for vx in x:
-                if vx not in table:
-                    return 'content'
-                r = go(vx, table[vx])
-                if r:
-                    return r
+                if t in MUTABLE:
+                    if id(y) in bwd:
+                        return 'sharing'
+                    bwd[id(y)] = x
+                fwd[id(x)] = y
+            if t is dict:
+                pairs = []
+                for (kx, vx), (ky, vy) in zip(x.items(), y.items()):
+                    if type(kx) is not type(ky) or kx != ky:
+                        return 'content'
+                    pairs.append((vx, vy))
+            elif t in (list, tuple):
+                pairs = list(zip(x, y))
+            else:
+                table = {m: m for m in y}
+                pairs = []
+                for vx in x:
+                    if vx not in table:
+                        return 'content'
+                    pairs.append((vx, table[vx]))
+            todo.extend(reversed(pairs))
         return None
-    try:
-        return go(a, b)
     except (RecursionError, TypeError):
         return 'content'
 
 
-def guarded(fn):
+def guarded(fn, cpu=None):
     """-> ('ok', value) | ('raised', ExceptionTypeName) | ('hang', which budget)"""
-    signal.setitimer(signal.ITIMER_VIRTUAL, CASE_CPU_S)
+    signal.setitimer(signal.ITIMER_VIRTUAL, cpu or CASE_CPU_S)
     try:
         try:
             return ('ok', fn())
@@ -663,18 +706,31 @@ def call_remap(I, root, prog, **kw):
         return I.remap(root, trace=tr, **kw)
 
 
+def _short_render(x):
+    """Large structures: a bounded excerpt."""
+    text = render(x)
+    return text if len(text) <= 300 else text[:300] + '... (%d characters)' % len(text)
+
+
 def run_case(root, flags, prog, snap):
     """-> list of (signature, expected, observed, tags)"""
     I = iu()
     kind = prog['kind']
     out = []
+    big = flags.get('big')
+    cpu = BIG_CPU_S if big else None
+    rend = _short_render if big else render
+
+    def ptxt(path):
+        return repr(path) if len(path) <= 12 else '(%s, ... %d segments ..., %s)' % (
+            repr(path[:3])[1:-1], len(path) - 6, repr(path[-3:])[1:-1])
 
     def check_input(fn):
         if snapshot(root)[0] != snap[0]:
-            out.append(('C08|fn:%s|input-mutated' % fn, 'input unchanged: ' + snap[2], render(root), ()))
+            out.append(('C08|fn:%s|input-mutated' % fn, 'input unchanged: ' + snap[2], rend(root), ()))
 
     if kind == 'research':
-        res = guarded(lambda: I.research(root))
+        res = guarded(lambda: I.research(root), cpu)
         if res[0] == 'hang':
             return [('C08|fn:research|terminates', 'returns', 'no result within the %s budget' % res[1], ())]
         check_input('research')
@@ -698,53 +754,62 @@ def run_case(root, flags, prog, snap):
                 same = (v is value) if isinstance(value, CONTAINERS) else (type(v) is type(value) and v == value)
                 if same:
                     continue
-                obs = 'get_path(root, %r) returned %s' % (path, render(v))
+                obs = 'get_path(root, %s) returned %s' % (ptxt(path), rend(v))
             else:
-                obs = 'get_path(root, %r) %s %s' % (path, got[0], got[1])
+                obs = 'get_path(root, %s) %s %s' % (ptxt(path), got[0], got[1])
             tags = ('path_through_set',) if walk_through_set(root, path) else ()
             if tags not in reported:
                 reported.add(tags)
                 out.append(('C08|fn:research+get_path|reported-path-not-retrievable',
-                            'get_path(root, %r) is %s' % (path, render(value)), obs, tags))
+                            'get_path(root, %s) is %s' % (ptxt(path), rend(value)), obs, tags))
         return out
 
     if kind == 'default':
         dc = 'default-callbacks+trace' if prog.get('trace') else 'default-callbacks'
-        res = guarded(lambda: call_remap(I, root, prog))
+        res = guarded(lambda: call_remap(I, root, prog), cpu)
         if res[0] == 'hang':
             return [('C08|fn:remap|%s:terminates' % dc, 'returns', 'no result within the %s budget' % res[1], ())]
         check_input('remap')
         if flags['tuple_cycle']:
+            # no finite bottom-up rebuild exists, so "equal deep copy" is not demanded - but whatever is returned is
+            # demanded to share no mutable container with the input (stated for every input, cycles included)
+            if res[0] == 'ok' and reachable_mutable(root) & reachable_mutable(res[1]):
+                out.append(('C08|fn:remap|%s:shares-mutable-container-with-input' % dc,
+                            'no list/dict/set object reachable from both', rend(res[1]), ()))
             return out
         if res[0] == 'raised':
             out.append(('C08|fn:remap|%s:raised' % dc, 'an equal deep copy: ' + snap[2], 'raised ' + res[1], ()))
             return out
         diff = iso(root, res[1])
         if diff:
-            out.append(('C08|fn:remap|%s:not-an-equal-deep-copy(%s)' % (dc, diff), snap[2], render(res[1]), ()))
+            out.append(('C08|fn:remap|%s:not-an-equal-deep-copy(%s)' % (dc, diff), snap[2], rend(res[1]), ()))
         elif reachable_mutable(root) & reachable_mutable(res[1]):
             out.append(('C08|fn:remap|%s:shares-mutable-container-with-input' % dc,
-                        'no list/dict/set object reachable from both', render(res[1]), ()))
+                        'no list/dict/set object reachable from both', rend(res[1]), ()))
         return out
 
     name = progname(prog)
-    res = guarded(lambda: call_remap(I, root, prog, visit=make_visit(prog)))
+    res = guarded(lambda: call_remap(I, root, prog, visit=make_visit(prog)), cpu)
     if res[0] == 'hang':
         return [('C08|fn:remap|visit=%s:terminates' % name, 'returns', 'no result within the %s budget' % res[1], ())]
     check_input('remap')
     if flags['tuple_cycle']:
         return out
     try:
-        exp = ('ok', reference(root, make_visit(prog)))
+        if big:      # the recursive reference cannot descend that deep; these programs keep every item, so the
+            assert set(prog['acts']) <= {'T', 'S'}      # rebuild is a copy: the expected result is isomorphic to the input
+            exp = ('ok', root)
+        else:
+            exp = ('ok', reference(root, make_visit(prog)))
     except Impossible:
         raise AssertionError('reference met an in-progress immutable container on a structure not flagged tuple_cycle')
     if res[0] == 'raised':
-        out.append(('C08|fn:remap|visit=%s:raised' % name, render(exp[1]), 'raised ' + res[1], ()))
+        out.append(('C08|fn:remap|visit=%s:raised' % name, rend(exp[1]), 'raised ' + res[1], ()))
         return out
     diff = iso(exp[1], res[1])
     if diff:
-        out.append(('C08|fn:remap|visit=%s:differs-from-recursive-rebuild(%s)' % (name, diff), render(exp[1]),
-                    render(res[1]), ()))
+        out.append(('C08|fn:remap|visit=%s:differs-from-recursive-rebuild(%s)' % (name, diff), rend(exp[1]),
+                    rend(res[1]), ()))
     return out
 
 
@@ -752,6 +817,92 @@ def evaluate(spec, prog):
     """Replay entry: build the structure, run one program."""
     root, flags = build(spec)
     snap = snapshot(root) + (render(root),)
+    return run_case(root, flags, prog, snap)
+
+
+# ======================================================================================================
+# large structures (directed scenarios, not an exhaustive space): depth beyond the interpreter's recursion limit, widths
+# around powers of two.  remap is specified for *any* nesting; its explicit stack, the id registry and the path tuples
+# are the parts whose cost / limits depend on scale.
+
+BIG_CPU_S = 120.0
+BIG_CHAIN_KINDS = ('L', 'T', 'D', 'LTD')
+BIG_WIDE_KINDS = ('L', 'T', 'D', 'S')
+BIG_WIDTHS = (255, 257, 65537)
+
+
+def big_specs():
+    lim = sys.getrecursionlimit()
+    out = [{'shape': 'chain', 'kinds': k, 'size': d} for d in (lim - 1, lim + 1, 2 * lim + 1) for k in BIG_CHAIN_KINDS]
+    out += [{'shape': 'wide', 'kinds': k, 'size': w} for w in BIG_WIDTHS for k in BIG_WIDE_KINDS]
+    return out
+
+
+def build_big(spec):
+    """-> (root, flags, description, number of child slots)"""
+    size, kinds = spec['size'], spec['kinds']
+    shared = [0]
+    flags = {'refs': 1, 'cycle': False, 'tuple_cycle': False, 'nested': True, 'set_members': False, 'lookalike': False,
+             'big': True}
+    if spec['shape'] == 'chain':
+        # `size` containers nested in each other (kinds cycling, outermost first: kinds[0]); every level also holds one
+        # and the same list `shared`; the innermost list points back to the outermost container when that is mutable
+        bottom = cur = ['a', shared]
+        slots = 2
+        for i in range(size - 1):
+            kind = kinds[(size - 2 - i) % len(kinds)]
+            if kind == 'L':
+                cur = [cur, shared]
+                slots += 2
+            elif kind == 'T':
+                cur = (cur, shared, i)
+                slots += 3
+            else:
+                cur = {'a': cur, i: shared, str(i): i}
+                slots += 3
+        if isinstance(cur, MUTABLE) and cur is not bottom:
+            bottom.append(cur)
+            slots += 1
+            flags['cycle'] = True
+        desc = ('chain of %d nested containers, kinds %s repeating from the outside, each level also holding one shared '
+                'list%s' % (size, '/'.join(kinds), '; innermost list refers back to the root' if flags['cycle'] else ''))
+        return cur, flags, desc, slots
+    shared_d = {'k': shared}
+
+    def item(i):
+        r = i % 4
+        return 1000 + i if r == 0 else shared_d if r == 1 else (i, shared) if r == 2 else [i]
+    if kinds == 'L':
+        root = [item(i) for i in range(size)]
+        root.append(root)
+        flags['cycle'] = True
+    elif kinds == 'T':
+        root = tuple(item(i) for i in range(size))
+    elif kinds == 'D':
+        root = {}
+        for i in range(size // 2):
+            root[i] = item(i)               # int key and its decimal spelling side by side
+            root[str(i)] = (i,)
+        root['self'] = root
+        flags['cycle'] = True
+    else:
+        root = set((i, i) if i % 2 else 1000 + i for i in range(size))
+        flags['set_members'] = True
+    desc = 'wide %s of %d items (ints, one shared dict, tuples around one shared list, fresh lists%s)' % (
+        type(root).__name__, len(root), '; last item is the root itself' if flags['cycle'] else '')
+    slots = len(root) + 2 * size
+    return root, flags, desc, slots
+
+
+def big_programs(slots):
+    steps = 2 * slots + 100
+    return [{'kind': 'default'}, {'kind': 'research'},
+            {'kind': 'vk', 'acts': ['S'] * 3, 'steps': steps}, {'kind': 'vk', 'acts': ['T', 'S', 'T'], 'steps': steps}]
+
+
+def evaluate_big(spec, prog):
+    root, flags, desc, _ = build_big(spec)
+    snap = snapshot(root) + (desc,)
     return run_case(root, flags, prog, snap)
 
 
@@ -819,8 +970,35 @@ def run(ctx):
             'least one back-reference (shared object or cycle)')
     shards = shard_list(sizes) + shard_list(range(1, B['N1'] + 1), voc=1)
     total = inputs.run_shards(ctx, shard, shards, part='remap+research', rule=rule)
+
+    def big_shard(spec):
+        _arm()
+        t = inputs.Tally()
+        try:
+            root, flags, desc, slots = build_big(spec)
+            snap = snapshot(root) + (desc,)
+            t.add('structures', 1)
+            for prog in big_programs(slots):
+                case = {'big': spec, 'prog': prog}
+                t.count(nontrivial=True, sample=case if prog['kind'] == 'vk' else None)
+                bad = run_case(root, flags, prog, snap)
+                for sig, exp, obs, tags in bad:
+                    t.bad(sig, dict(case, structure=desc), exp, obs, tags=tags)
+                if any(sig.endswith('terminates') for sig, _, _, _ in bad):
+                    t.add('stopped_after_hangs', 1)
+                    break
+                if any(sig.endswith('input-mutated') for sig, _, _, _ in bad):
+                    root, flags, desc, slots = build_big(spec)
+                    snap = snapshot(root) + (desc,)
+        except Budget:
+            t.bad('C08|harness:budget|stray-timer', {'big': spec}, None, None)
+        return t
+
+    specs = big_specs()
+    big_total = inputs.run_shards(ctx, big_shard, specs, part='large structures (directed)',
+                                  rule='every case: >= 255 containers or items, shared objects')
     cov = ctx.coverage
-    capped = bool(total.extra.get('stopped_after_hangs'))
+    capped = bool(total.extra.get('stopped_after_hangs') or big_total.extra.get('stopped_after_hangs'))
     if capped:
         cov['capped'] = 'a shard stopped after a call exhausted its step/CPU budget'
     cov['rule'] = rule
@@ -846,6 +1024,18 @@ def run(ctx):
                  '"visit", "exit"; structures of %d..%d nodes: default callbacks and the same-pair table with trace=True '
                  '(output discarded)' % (TRACE_FULL_UPTO, TRACE_FULL_UPTO + 1, min(TRACE_UPTO, B['N'])),
     }
+    cov['bounds']['look-alike keys'] = (
+        'two-entry dicts also take, in both orders, the key pairs %s (structures of <= %d nodes) and %s (vocabulary 1); '
+        'these structures run the default callbacks, research+get_path, path-echo, the 5 uniform tables and the traced '
+        'programs' % (', '.join(map(repr, LOOKALIKE0)), B['rich_keys_upto'],
+                      ', '.join(repr(tuple(_unpy(k) for k in pr)) for pr in LOOKALIKE1)))
+    cov['bounds']['large structures (directed scenarios, NOT an exhaustive space)'] = (
+        'chains of d nested containers for d = recursion limit - 1, + 1, 2 x + 1 (%s) over the kinds %s, one list shared '
+        'by every level, innermost list pointing back to a mutable root; wide list / tuple / dict / set of %s items '
+        '(dict: int keys next to their decimal spellings), shared and self-referencing members; programs: default '
+        'callbacks, research+get_path on every reported path, two keep-everything visit tables (expected = isomorphic '
+        'to the input); %d structures' % (', '.join(str(sp['size']) for sp in specs[::len(BIG_CHAIN_KINDS)][:3]),
+                                          ', '.join(BIG_CHAIN_KINDS), ', '.join(map(str, BIG_WIDTHS)), len(specs)))
     if tier == 'quick':
         cov['bounds']['programs'] = basic
     else:
@@ -856,15 +1046,16 @@ def run(ctx):
             'default callbacks; research+get_path; path-echo')
     ctx.assumptions += [
         'set/frozenset members are matched as unordered collections; a rebuilt set may iterate in another order',
-        'cycle through a tuple (back-reference to an enclosing tuple): only termination and an untouched input are '
-        'demanded (DESIGN 5.1); %d such structures in this run' % total.extra.get('structures_with_cycle_through_tuple', 0),
+        'cycle through a tuple (back-reference to an enclosing tuple): only termination, an untouched input and (default '
+        'callbacks) no mutable container shared with the input are demanded (DESIGN 5.1); %d such structures in this run' % total.extra.get('structures_with_cycle_through_tuple', 0),
         'sharing: an object shared in the reference rebuild must be shared in the result; two distinct list/dict/set '
         'objects must stay distinct; merging two equal immutable containers is not counted as a difference; the empty '
         'tuple / frozenset (interpreter singletons) are compared by type only',
         "the root's own research entry ((None,), root) is not a nested item",
         'programs that depend on the path are only run where the statement fixes the path: len(path) everywhere, the '
         'full path only on structures without set members (the key of a set member is not specified)',
-        'custom enter/exit callbacks and reraise_visit=False are outside the statement (it quantifies over visit '
+        'research is called without a query (every item reported), get_path with the reported tuple paths only (no '
+        'dotted-string paths, no default); custom enter/exit callbacks and reraise_visit=False are outside the statement (it quantifies over visit '
         'functions that keep, drop or rewrite items) and are not explored',
         'scalars are 0, 1, "a" (plus "X", "K" and path tuples produced by the programs); one representative of the other '
         'built-in scalar kinds (None, bool, float, empty / longer str, bytes, complex) on structures of <= %d nodes' % B['N1'],
@@ -876,5 +1067,6 @@ def run(ctx):
 def replay(ctx, data):
     _arm()
     case = data['case']
+    res = evaluate_big(case['big'], case['prog']) if 'big' in case else evaluate(case['term'], case['prog'])
     return ['%s%s expected=%r observed=%r' % (sig, (' [%s]' % ','.join(tags)) if tags else '', exp, obs)
-            for sig, exp, obs, tags in evaluate(case['term'], case['prog'])]
+            for sig, exp, obs, tags in res]
